@@ -224,23 +224,23 @@ Definition is_kw (a : str) : bool := str_eqb a s_True || str_eqb a s_true || str
 (* a name: param characters, not a keyword, not an operator word; the word it sits in is not an operator either *)
 Lemma word_not_op c bt e : wordstart c -> forallb is_param_char bt = true -> is_op tbl (c :: bt) = false ->
   match e with x :: _ => is_param_char x = false | [] => True end -> forallb not_ws_delim e = true ->
-  is_param_char c = true -> is_op tbl (c :: bt ++ e) = false.
+  is_op tbl (c :: bt ++ e) = false.
 Proof.
-  intros (_ & Hs & _) Hbt Hn He Hee Hc. destruct (is_op tbl (c :: bt ++ e)) eqn:O; [|reflexivity]. exfalso.
+  intros (_ & Hs & _) Hbt Hn He Hee. destruct (is_op tbl (c :: bt ++ e)) eqn:O; [|reflexivity]. exfalso.
   destruct (word_ops_param _ O) as [P|P]; [|cbn in P; rewrite Hs in P; discriminate P].
   cbn [forallb] in P. apply andb_prop in P as [_ P]. rewrite forallb_app in P. apply andb_prop in P as [_ P].
   destruct e as [|x e']; [rewrite app_nil_r in O; rewrite Hn in O; discriminate|].
   cbn [forallb] in P. apply andb_prop in P as [Px _]. rewrite He in Px. discriminate.
 Qed.
 
-Lemma lex_name cur g c bt k : forallb is_ws g = true -> wordstart c -> is_param_char c = true ->
+Lemma lex_name cur g c bt k : forallb is_ws g = true -> wordstart c ->
   forallb is_param_char bt = true -> is_op tbl (c :: bt) = false -> is_kw (c :: bt) = false ->
   match k with [] => True | x :: _ => is_param_char x = false end ->
   lex_one tbl cur (g ++ c :: bt ++ k) =
   LTok (mkst (if next_is_lparen 0 k then TFunc (c :: bt) else TRef (c :: bt)) (cur + blen g) (cur + blen g + ulen c + blen bt))
        (cur + blen g + ulen c + blen bt) k.
 Proof.
-  intros Hg Hws Hc Hbt Hn Hkw Hkp. pose proof Hws as (H1 & H2 & H3 & H4 & H5 & H6 & H7). unfold lex_one.
+  intros Hg Hws Hbt Hn Hkw Hkp. pose proof Hws as (H1 & H2 & H3 & H4 & H5 & H6 & H7). unfold lex_one.
   rewrite (scan_app is_ws cur g (c :: bt ++ k) Hg H1). rewrite H2, H3, H4, H5, H6, H7.
   destruct (scan not_ws_delim (cur + blen g + ulen c) (bt ++ k)) as [curw restw] eqn:Hsw.
   pose proof Hsw as Hsw0. apply scan_spec in Hsw0. destruct Hsw0 as (ww & Hww & -> & Hwwp & Hwstop).
@@ -393,21 +393,21 @@ Lemma TX_wordop c bt : wordstart c -> forallb not_ws_delim (c :: bt) = true -> i
 Proof.
   intros Hw Hb Ho. apply TX_one. intros g cur k Hg Hk. eexists. split; [cbn [app]; rewrite (lex_wordop cur g c bt k Hg Hw Hb Ho Hk); f_equal; cbn [blen]; lia | reflexivity].
 Qed.
-Lemma TX_ref c bt : wordstart c -> is_param_char c = true -> forallb is_param_char bt = true ->
+Lemma TX_ref c bt : wordstart c -> forallb is_param_char bt = true ->
   is_op tbl (c :: bt) = false -> is_kw (c :: bt) = false -> TX kend (c :: bt) [TRef (c :: bt)].
 Proof.
-  intros Hw Hc Hb Ho Hk0. apply TX_one. intros g cur k Hg [Ks Kl]. eexists. split.
-  - cbn [app]. rewrite (lex_name cur g c bt k Hg Hw Hc Hb Ho Hk0 (kstop_param k Ks)). rewrite Kl. f_equal. cbn [blen]. lia.
+  intros Hw Hb Ho Hk0. apply TX_one. intros g cur k Hg [Ks Kl]. eexists. split.
+  - cbn [app]. rewrite (lex_name cur g c bt k Hg Hw Hb Ho Hk0 (kstop_param k Ks)). rewrite Kl. f_equal. cbn [blen]. lia.
   - reflexivity.
 Qed.
 (* a function name with its opening parenthesis *)
-Lemma TX_funcname c bt : wordstart c -> is_param_char c = true -> forallb is_param_char bt = true ->
+Lemma TX_funcname c bt : wordstart c -> forallb is_param_char bt = true ->
   is_op tbl (c :: bt) = false -> is_kw (c :: bt) = false ->
   TX rany ((c :: bt) ++ [c_lparen]) [TFunc (c :: bt); TDelim DLParen].
 Proof.
-  intros Hw Hc Hb Ho Hk0 g cur k kts Hg _ HL. rewrite <- app_assoc. cbn [app].
+  intros Hw Hb Ho Hk0 g cur k kts Hg _ HL. rewrite <- app_assoc. cbn [app].
   eapply (Lx_tok cur _ (mkst (TFunc (c :: bt)) (cur + blen g) (cur + blen g + ulen c + blen bt)) (cur + blen g + ulen c + blen bt) (c_lparen :: k)).
-  - rewrite (lex_name cur g c bt (c_lparen :: k) Hg Hw Hc Hb Ho Hk0 eq_refl).
+  - rewrite (lex_name cur g c bt (c_lparen :: k) Hg Hw Hb Ho Hk0 eq_refl).
     assert (E : next_is_lparen 0 (c_lparen :: k) = true) by reflexivity. rewrite E. reflexivity.
   - eapply (Lx_tok _ _ (mkst (TDelim DLParen) _ _)).
     + exact (lex_delim (cur + blen g + ulen c + blen bt) [] DLParen k eq_refl).
